@@ -40,6 +40,10 @@ def coef_ok(g, r):
     return abs(fg - fr) <= 5e-14 * abs(fr) or sig15(fr) == fg
 
 
+EXPLANATION += ' R08.4 sampled registry helpers called twice in one state (the same array updated in place / a fresh array) return the tables of the eccentricity of that call; registry entries may be functions or callable wrappers (judged by what they return).'
+
+TECHNIQUE += '; two successive calls of registry entries in one interpreter state with arrays as mutable cells (callable objects and closures interpreted), node identity against a fresh call'
+
 def run(chk):
     repo = Repo(chk.repo)
     it = Interp(repo)
